@@ -33,15 +33,6 @@ func RenameOutput(callable syntax.Callable,
 					oldParam, newParam, pipe, edits)
 			}
 		}
-		// Fix up top-level call if needed.
-		if ast.Call != nil && ast.Call.DecId == callable.GetId() {
-			edits = append(edits, renameCallParamEdit{
-				File:     syntax.DefiningFile(ast.Call),
-				Id:       ast.Call.Id,
-				OldParam: oldParam,
-				NewParam: newParam,
-			})
-		}
 	}
 	if len(edits) == 0 {
 		return nil
